@@ -7,6 +7,8 @@
 //!   sdsim gen <ID> <seed-index> [tier]                           print a generated scenario
 //!   sdsim selftest                                               seam self-test only
 
+#![cfg_attr(sdsim_tsan, feature(sanitize))]
+
 mod byz;
 mod faults;
 mod gen;
@@ -26,6 +28,8 @@ mod seams;
 mod shrink;
 mod supervisor;
 mod timeline;
+#[cfg(sdsim_tsan)]
+mod tsanrt;
 mod wire;
 mod world;
 
